@@ -39,14 +39,14 @@ FILE_PROPS = {
     "persim/images.py": ["C12", "C04", "C11", "C18"],
     "persim/images_kernels.py": ["C13", "C04"],
     "persim/images_weights.py": ["C04", "C19"],
-    "persim/visuals.py": ["C20", "C19"],
+    "persim/visuals.py": ["C20"],
     "persim/landscapes/exact.py": ["C03", "C09", "C10"],
     "persim/landscapes/approximate.py": ["C08", "C09", "C10"],
     "persim/landscapes/auxiliary.py": ["C09", "C10", "C08"],
     "persim/landscapes/tools.py": ["C08", "C09"],
     "persim/landscapes/transformer.py": ["C18", "C08"],
-    "persim/landscapes/base.py": ["C10", "C03", "C09"],
-    "persim/landscapes/visuals.py": ["C20", "C19"],
+    "persim/landscapes/base.py": ["C10", "C03"],
+    "persim/landscapes/visuals.py": ["C20"],
 }
 
 CMP = {ast.Lt: ["<=", ">"], ast.LtE: ["<", ">="], ast.Gt: [">=", "<"], ast.GtE: [">", "<="], ast.Eq: ["!="], ast.NotEq: ["=="],
